@@ -288,7 +288,7 @@ def check_dump():
     return None
 
 
-BATTERY = {'C10': [check_filters, check_filtered_fast_packets], 'C11': [check_identity, check_filters, check_reclaim_same_device], 'C15': [check_dump], 'C16': [check_filters, check_identity, check_filtered_fast_packets, check_ignored_then_supported, check_formats_one_decoder], 'C08': [], 'C17': [check_hash_presence], 'C07': [check_formats_one_decoder]}
+BATTERY = {'C10': [check_filters, check_filtered_fast_packets], 'C11': [check_identity, check_filters, check_reclaim_same_device], 'C15': [check_dump], 'C16': [check_filters, check_identity, check_filtered_fast_packets, check_ignored_then_supported, check_formats_one_decoder], 'C08': [], 'C17': [check_hash_presence], 'C07': [check_formats_one_decoder], 'C03': [check_formats_one_decoder]}
 
 
 _MEMO = {}
